@@ -102,6 +102,16 @@ def props_of_failure(f):
             ps.append("C10")
         if "lock" in f:
             ps.append("C18")
+    m2 = re.search(r"the preceding operation was `(\w+)", f)
+    if m2:
+        # the first difference of a case shows up in the dump / read that follows the operation that went wrong
+        prev = m2.group(1)
+        if prev in ("retain", "retainf") and "C13" not in ps:
+            ps.append("C13")
+        if prev == "cip" and "C08" not in ps:
+            ps.append("C08")
+        if prev in ("reserve", "extend", "collect") and "C14" not in ps and "len=" in f:
+            ps.append("C14")
     if "(after a panic in op" in f and "C18" not in ps:
         ps.append("C18")
     if tag in ("answer:cip",) and "panic" not in f:
